@@ -98,6 +98,17 @@ class C12(Prop):
             c = copy.deepcopy(base)
             c["faults"] = [{"op": i, "seam": seam, "at": k, "kind": "kbdint" if (j + seed) % 3 == 0 else "raise"}]
             out.append(c)
+        # "or tolerances cannot be met": persistent rhs spikes with a small retry cap exhaust the retry loop of one step
+        if gen.is_adaptive(base["system"]["method"]) and not base["system"]["method"].startswith("Rich:") and points:
+            rpts = [p for p in points if p[1] == "rhs"]
+            for _ in range(min(6, len(rpts))):
+                i, seam, k = r.choice(rpts)
+                c = copy.deepcopy(base)
+                cap = r.choice([2, 3])
+                c["knobs"]["retry_cap"] = cap
+                c["faults"] = [{"op": i, "seam": "rhs", "at": k + j, "kind": "spike", "amp": 1e6} for j in range(40 * (cap + 2))]
+                c["tolerance_failure"] = True
+                out.append(c)
         if tier == "thorough" and points:
             # fault sequences: fault, resume, fault (in the resume op), resume ...
             for _ in range(min(24, len(points))):
@@ -136,11 +147,13 @@ class C12(Prop):
         first_fault_op = min([f["fault"]["op"] for f in w.fired], default=None)
         fired_ops = set(f["fault"]["op"] for f in w.fired)
         diverged = False
+        tainted = False
         for i, snap in enumerate(w.snaps):
             op = ops[i]
             tsnap = T.snaps[i] if i < len(T.snaps) else None
             if snap["kind"] == "reset":
                 diverged = False
+                tainted = False
                 if not (snap["n"] == 1 and bitwise_equal(snap["y"][0], w.caller_y0_copy) and not snap["events"] and snap["sol_t_eval"] is None
                         and "has not been run" in snap["status"]):
                     bad("reset_pristine", "after reset(): %d rows, %d events, dense %s, status %r" % (snap["n"], len(snap["events"]), snap["sol_t_eval"] is not None, snap["status"][:40]), i)
@@ -148,9 +161,36 @@ class C12(Prop):
             if snap["kind"] != "integrate":
                 continue
             pre_n = w.snaps[i - 1]["n"] if i > 0 else 1
+            if i in fired_ops and all(f["fault"]["kind"] == "spike" for f in w.fired if f["fault"]["op"] == i):
+                # ---------------- tolerances cannot be met (or the spikes were absorbed by retries)
+                diverged = True
+                tainted = True          # a perturbed step may have been accepted: no accuracy / twin comparison afterwards
+                e = snap["exc"]
+                failed_tol = [c for c in w.icalls if c["op"] == i and c["depth"] == 0 and c["ok"] is False and c.get("exc") == "FailedToMeetTolerances"]
+                if failed_tol:
+                    res["probes"]["tolerance_failure"] = res["probes"].get("tolerance_failure", 0) + 1
+                    chain = cause_chain(e) if e is not None else []
+                    if e is None or type(e).__name__ != "FailedIntegration" or not any(type(x).__name__ == "FailedToMeetTolerances" for x in chain):
+                        bad("tolerance_failure_raises", "the retry loop gave up (FailedToMeetTolerances) but integrate raised %s" % (snap["exc_type"],), i)
+                    if snap["success"] or (e is not None and "failed" not in snap["status"]):
+                        bad("status_reports_failure", "status after a tolerance failure: %r" % snap["status"][:80], i)
+                    c = failed_tol[-1]
+                    if c["nested"] == 1 and not (bitwise_equal(snap["t"][-1], c["t0"]) and bitwise_equal(snap["y"][-1], c["y0"])):
+                        bad("exactly_completed_steps", "after a tolerance failure the last row is not the start of the failed step", i)
+                    if tsnap is not None and not op.get("events"):
+                        # rows before the first spiked step are still the twin's
+                        first_spike_seq = min(f["seq"] for f in w.fired if f["fault"]["op"] == i)
+                        clean = [c_ for c_ in w.icalls if c_["op"] == i and c_["depth"] == 0 and c_["ok"] and c_.get("seq1", 0) < first_spike_seq]
+                        nclean = pre_n + len(clean)
+                        if not rows_prefix(snap["t"][:nclean], snap["y"][:nclean], tsnap["t"], tsnap["y"]):
+                            bad("prefix_of_twin", "rows recorded before the first perturbed step are not a prefix of the twin's", i)
+                    oracles.check_rows(w, snap, pre_n - 1, P, P + ".prefix_step") if False else None
+                elif e is not None:
+                    bad("resume_completes", "op %d raised %s although the retry loop did not give up" % (i, snap["exc_type"]), i)
+                continue
             if i in fired_ops:
                 # ---------------- the failing call
-                flt = [f for f in w.fired if f["fault"]["op"] == i][0]
+                flt = [f for f in w.fired if f["fault"]["op"] == i and f["fault"]["kind"] != "spike"][0]
                 e = snap["exc"]
                 injected = [x for x in w.raised]
                 if e is None:
@@ -201,6 +241,9 @@ class C12(Prop):
             # ---------------- non-failing integrate
             if snap["exc"] is not None:
                 # not caused by an injected fault here: tolerance exhaustion etc. is a legal outcome only if the twin does the same
+                small_cap = scn.get("knobs", {}).get("retry_cap") is not None and any(type(x).__name__ == "FailedToMeetTolerances" for x in cause_chain(snap["exc"]))
+                if small_cap:
+                    continue        # with the retry-cap knob a resumed step may legitimately exhaust its (2-3) retries
                 if tsnap is None or tsnap["exc"] is None or diverged:
                     bad("resume_completes", "op %d raised %s without an injected fault (%s)" % (i, snap["exc_type"], str(snap["exc"].__cause__)[:120]), i)
                 continue
@@ -217,7 +260,7 @@ class C12(Prop):
                 continue
             # resumed call after a failure
             oracles.check_rows(w, snap, pre_n - 1, P, P + ".resume_step")
-            if tsnap is not None and tsnap["exc"] is None:
+            if tsnap is not None and tsnap["exc"] is None and not tainted:
                 self.compare_final(w, T, snap, tsnap, i, bad)
 
     def compare_final(self, w, T, snap, tsnap, i, bad):
